@@ -6,7 +6,7 @@ MODULES = ["Prelude", "Sched", "C05_Model", "C05_Spec", "C05_Check"]
 PROPS_MODULE = "C05_Properties"
 THEOREMS = ["C05_counter_inv", "C05_counter_shape", "C05_admit_le_read", "C05_resize", "C05_release_once",
             "C05_quiescent_zero", "C05_refill", "C05_seq_refines_solo", "C05_sched_spec", "C05_isolation",
-            "C05_reconfig_bound", "C05_every_exit_releases"]
+            "C05_schemas_isolated_exact_names", "C05_reconfig_bound", "C05_every_exit_releases"]
 COQ_SHARD = 120
 HARNESS_CHUNK = 130
 EVAL = "C05_Check.eval"
@@ -94,12 +94,12 @@ def rel(r):
 
 
 CLUSTERS = ["A", "B"]
-NAMES = ["x", "y"]
+NAMES = ["x", "X", "y"]      # schema names are case-sensitive: "x" and "X" are two schemas
 KEYS = [[c, n] for c in CLUSTERS for n in NAMES]
 
 
-def hist_case(ops):
-    return {"kind": "hist", "keys": KEYS, "ops": ops}
+def hist_case(ops, keys=None):
+    return {"kind": "hist", "keys": keys or KEYS, "ops": ops}
 
 
 def corpus():
@@ -153,6 +153,23 @@ def corpus():
                              acq("A", "x", 9), acq("A", "x", 10), acq("A", "x", 11)]))
     cs.append(hist_case([sync("A", [tb("x", 1000, "local")]), acq("A", "x", 1), sync("A", [tb("x", 1000, "globalCount")]),
                          acq("A", "x", 2), sync("A", [ex("x", "local")]), sync("A", [ex("x", "")]), acq("A", "x", 3)]))
+    # schema names that are equal up to case, or differ in one punctuation character, are DIFFERENT schemas with
+    # their own limits: exhaust one, the others still admit up to their own M; resize one, delete one, re-add
+    def twins(mk, cl, acq_, n1, n2, n3):
+        return mk([sync(cl, [mif(n1, 1), mif(n2, 3), mif(n3, 2)]),
+                   acq_(cl, n1, 1), acq_(cl, n1, 2), acq_(cl, n2, 3), acq_(cl, n2, 4), acq_(cl, n2, 5), acq_(cl, n2, 6),
+                   acq_(cl, n3, 7), acq_(cl, n3, 8), acq_(cl, n3, 9), rel(1), acq_(cl, n1, 10), acq_(cl, n1, 11),
+                   sync(cl, [mif(n1, 1), mif(n2, 1), mif(n3, 2)]), acq_(cl, n2, 12), rel(3), rel(4), rel(5), acq_(cl, n2, 13),
+                   acq_(cl, n2, 14), sync(cl, [mif(n2, 1), mif(n3, 2)]), acq_(cl, n1, 15), acq_(cl, n2, 16), acq_(cl, n3, 17),
+                   rel(7), acq_(cl, n3, 18), sync(cl, [mif(n1, 2), mif(n2, 1), mif(n3, 2)]), acq_(cl, n1, 19),
+                   acq_(cl, n1, 20), acq_(cl, n1, 21), acq_(cl, n2, 22)],
+                  keys=[[cl, n1], [cl, n2], [cl, n3]])
+    cs.append(twins(hist_case, "A", acq, "Batch", "batch", "BATCH"))
+    cs.append(twins(hist_case, "A", acq, "a.b", "a-b", "x"))
+    cs.append(twins(hist_case, "B", acq, "x", "X", "y"))
+    dq = lambda c, n, r: dacq(c, n, r, "ok")
+    cs.append(twins(disp_case, "a.test", dq, "Batch", "batch", "BATCH"))
+    cs.append(twins(disp_case, "a.test", dq, "a.b", "a-b", "X"))
     # --- the same through the real handler chain (dispatcher.ServeHTTP admits and releases)
     cs.append(disp_case([sync("a.test", [mif("x", 1, "local")]), dacq("a.test", "x", 1, "ok"),
                          sync("a.test", [mif("x", 1, "globalCount")]), dacq("a.test", "x", 2, "ok"), rel(1),
@@ -259,8 +276,8 @@ DKEYS = [[c, n] for c in DCLUSTERS for n in NAMES]
 EXITS = ["ok", "ok", "err", "abort", "panic", "noendpoint"]
 
 
-def disp_case(ops):
-    return {"kind": "disp", "keys": DKEYS, "ops": ops}
+def disp_case(ops, keys=None):
+    return {"kind": "disp", "keys": keys or DKEYS, "ops": ops}
 
 
 def dacq(c, n, r, exit_):
